@@ -414,6 +414,18 @@ func runConnCase(c connCase) (res connResult) {
 				f.CFHeader.Flags = spdy.ControlFlagFin
 			}
 			werr = cn.send(f)
+		case "synbad":
+			// well-framed SYN_STREAM, malformed request (draft 3.2.1): unsupported :scheme / no :path
+			f := &spdy.SynStreamFrame{StreamId: spdy.StreamId(s.ID), Headers: http.Header{
+				":method": {"POST"}, ":path": {"/"}, ":version": {"HTTP/1.1"}, ":host": {"verif.example"}, ":scheme": {"ftp"},
+				"x-id": {strconv.Itoa(int(s.ID))}}}
+			if s.F {
+				f.Headers[":method"] = []string{"GET"}
+				f.Headers[":scheme"] = []string{"http"}
+				delete(f.Headers, ":path")
+				f.CFHeader.Flags = spdy.ControlFlagFin
+			}
+			werr = cn.send(f)
 		case "data":
 			d := make([]byte, s.X)
 			for j := range d {
